@@ -88,16 +88,17 @@ class Sched:
         rd, rv = S.results.dom, S.results.val
         cl = [
             ("I1a.graph_within_selection", z3.ForAll([x], z3.Implies(G[x], S.Sel[x])), {"C03", "C11", "C12"}),
-            ("I1b.selected_done_xor_remaining", z3.ForAll([x], z3.Implies(S.Sel[x], G[x] != z3.Or(fin[x], sk[x]))), {"C03", "C09", "C02"}),
+            ("I1b.selected_done_xor_remaining", z3.ForAll([x], z3.Implies(S.Sel[x], G[x] != z3.Or(fin[x], sk[x]))), {"C03", "C09", "C02", "C14"}),
             ("I1c.finished_skipped_disjoint", z3.ForAll([x], z3.Not(z3.And(fin[x], sk[x]))), {"C03", "C10"}),
             ("I2a.ghost_within_selection", z3.ForAll([x], z3.Implies(z3.Or(st[x], fin[x], sk[x]), S.Sel[x])), {"C03"}),
             ("I2b.finished_started", z3.ForAll([x], z3.Implies(fin[x], st[x])), {"C03"}),
             ("I2c.skipped_never_started", z3.ForAll([x], z3.Implies(sk[x], z3.Not(st[x]))), {"C03", "C10"}),
-            ("I3a.inflight_is_started_unfinished", z3.ForAll([x], S.infl(x) == z3.And(st[x], z3.Not(fin[x]))), {"C02", "C03", "C04", "C05", "C09"}),
+            ("I3a.inflight_is_started_unfinished", z3.ForAll([x], S.infl(x) == z3.And(st[x], z3.Not(fin[x]))), {"C03", "C04", "C05", "C09"}),
             ("I3b.kinds_disjoint", z3.ForAll([x], z3.Not(z3.And(S.kindI("conc", x), S.kindI("async", x)))), {"C04"}),
             ("I3c.conc_is_thread", z3.ForAll([x], z3.Implies(S.kindI("conc", x), res(x) == R_THREAD)), {"C04", "C17"}),
             ("I3d.async_is_async_thread", z3.ForAll([x], z3.Implies(S.kindI("async", x), res(x) == R_ASYNC)), {"C04", "C17"}),
-            ("I4a.runnable_unstarted_in_graph", z3.ForAll([x], z3.Implies(run.mem(x), z3.And(G[x], z3.Not(st[x])))), {"C02", "C03"}),
+            ("I4a1.runnable_in_graph", z3.ForAll([x], z3.Implies(run.mem(x), G[x])), {"C03", "C14"}),
+            ("I4a2.runnable_unstarted", z3.ForAll([x], z3.Implies(run.mem(x), z3.Not(st[x]))), {"C03"}),
             ("I4b.runnable_no_pred", z3.ForAll([x, u], z3.Implies(z3.And(run.mem(x), G[u]), z3.Not(E(u, x)))), {"C02"}),
             ("I4c.ready_is_runnable", z3.ForAll([x], z3.Implies(z3.And(G[x], z3.Not(st[x]), z3.Not(run.mem(x))), z3.Exists([u], z3.And(G[u], E(u, x))))), {"C06", "C08", "C09"}),
             ("I5.inflight_no_pred", z3.ForAll([x, u], z3.Implies(z3.And(S.infl(x), G[u]), z3.Not(E(u, x)))), {"C02", "C09"}),
@@ -283,7 +284,7 @@ def wait_stub_effect(S, kind, return_when, graph, futures, done, running, runnab
     # ---- the helper blocks: property-level obligations at this blocking point
     tag = f"{fn}.{return_when}" + (".after_async_wait_blocked" if (kind == "conc" and S.async_wait_blocked) else "")
     C.check(c08_allowed_to_block(S), f"{tag}.C08.allowed_to_block", {"C08"}, "assert")
-    C.check(z3.Or(z3.BoolVal(return_when == FIRST_COMPLETED), S.n_inflight() <= 1), f"{tag}.C08.first_completed_unless_alone", {"C08"}, "assert")
+    C.check(z3.Or(z3.BoolVal(return_when == FIRST_COMPLETED), z3.Exists([x], z3.And(S.infl(x), seq(x)))), f"{tag}.C08.first_completed_unless_sequential_running", {"C08"}, "assert")
     if kind == "async":
         S.async_wait_blocked = True
     # ---- post state
